@@ -141,3 +141,39 @@ def clear_all_caches():
                             cc_()
                         except Exception:   # noqa
                             pass
+
+
+_TERM = {}
+
+
+def terminates(key, fn, seconds=15):
+    """Does fn() return within `seconds`?  Probed once per key in a forked child (a call stuck inside a compiled extension cannot be
+    interrupted from Python, so the child is killed).  Used before calling the library's built-in solver in-process: on some small
+    configurators it does not return (seen: StingyConfigurator(cc.Any('d','a'), All('c','b','e'), All('f','b','e')).select({}))."""
+    import os
+    import time
+    if key in _TERM:
+        return _TERM[key]
+    pid = os.fork()
+    if pid == 0:
+        try:
+            fn()
+        except BaseException:   # noqa
+            pass
+        os._exit(0)
+    t0 = time.time()
+    ok = False
+    while time.time() - t0 < seconds:
+        done, _ = os.waitpid(pid, os.WNOHANG)
+        if done:
+            ok = True
+            break
+        time.sleep(0.02)
+    if not ok:
+        try:
+            os.kill(pid, 9)
+        except OSError:
+            pass
+        os.waitpid(pid, 0)
+    _TERM[key] = ok
+    return ok
